@@ -129,6 +129,16 @@ def r1_attributes(text, m, ed):
                     body = m[ob + 1:j]
                     if "(" not in body and "{" not in body:
                         kept = kept + ["Structural"]
+                else:
+                    # likewise a struct all of whose fields are machine integers / bool / char (e.g. `Location { row, col }`)
+                    mm = re.compile(r"(?:\s|#\[[^\]]*\]|pub(?:\([^)]*\))?)*struct\s+\w+\s*\{").match(m, e)
+                    if mm:
+                        ob = mm.end() - 1
+                        j = m.find("}", ob)
+                        fields = [f.strip() for f in m[ob + 1:j].split(",") if f.strip()]
+                        prim = {"usize", "isize", "u8", "u16", "u32", "u64", "u128", "i8", "i16", "i32", "i64", "i128", "bool", "char"}
+                        if fields and all(re.match(r"^(?:pub(?:\([^)]*\))?\s+)?\w+\s*:\s*(\w+)$", f) and re.match(r"^(?:pub(?:\([^)]*\))?\s+)?\w+\s*:\s*(\w+)$", f).group(1) in prim for f in fields):
+                            kept = kept + ["Structural"]
             if kept == names:
                 continue
             if kept:
